@@ -12,6 +12,7 @@ def kind_aggregate : List Bool := [true, true, false, false, true, true, true, f
 def kind_dnssec : List Bool := [false, false, true, true, true, true, true, true]
 def max_cname_chase_depth : Nat := 10
 def max_dname_depth : Nat := 10
+def max_nsec3_iterations : Nat := 150
 def max_nsec3_memo_entries : Nat := 64
 def max_queryer_recursion : Nat := 32
 def max_resolution_attempts : Nat := 3
